@@ -52,13 +52,6 @@ theorem C18_tables_ok : TablesOk Gen.Quote.tables where
 /-- the opening quotes the theorem covers -/
 def openings : List Str := [[], [sq], [dq], ['r', sq], ['r', dq], [sq, sq, sq], [dq, dq, dq]]
 
-/-- the part of the triple-quote styles that is PROVED: the name does not contain that quote character
-(names that do are tied by the correspondence only; they are not a class of defects) -/
-def tripleScope (name o : Str) : Bool :=
-  match stripStringPrefix o with
-  | [q, _, _] => !name.contains q
-  | _ => true
-
 theorem isDirEff_tilde (T : Tables) (E : Env) (dfs : Bool) : isDirEff T E ['~'] ['~'] dfs = dfs := by
   simp [isDirEff, startsWith, List.isPrefixOf]
 
@@ -77,64 +70,66 @@ theorem tilde_entry {T : Tables} (ok : TablesOk T) (E : Env) (dfs : Bool) :
     exact readBack_raw1 (Or.inl rfl) E ['~', '/'] [] rfl (by decide) (by decide) (by decide)
 
 /-- the regular candidate, per opening -/
-theorem regular_ok {T : Tables} (ok : TablesOk T) (E : Env) (name o : Str) (te : Bool) (m : Mode) (dfs : Bool)
-    (hname : name ≠ []) (ho : o ∈ openings) (hscope : tripleScope name o = true)
+theorem regular_ok {T : Tables} (ok : TablesOk T) (E : Env) (wq se : Bool) (name o : Str) (te : Bool) (m : Mode) (dfs : Bool)
+    (hname : name ≠ []) (ho : o ∈ openings)
     (hA : normName name = name) (hB : name.any (fun c => unescapedBreaks.contains c) = false)
-    (hg : styleClasses T E name (seenStyle o te m).1 (seenStyle o te m).2.1 dfs = [])
-    (hT3 : (m == .closedInside && !loneQuote o te m && (stripStringPrefix o).length == 3) = false)
+    (hg : styleClasses T E se name (seenStyle wq o te m).1 (seenStyle wq o te m).2.1 dfs = [])
+    (hT3 : (!wq && m == .closedInside && !loneQuote o te m && (stripStringPrefix o).length == 3) = false)
     (hL : (m == .closedInside && loneQuote o te m) = false) :
-    readBack T E (regular T E name (seenStyle o te m).1 (seenStyle o te m).2.1 dfs (seenStyle o te m).2.2 ++ lineTail o m) =
+    readBack T E (regular T E name (seenStyle wq o te m).1 (seenStyle wq o te m).2.1 dfs (seenStyle wq o te m).2.2 ++ lineTail o m) =
       .args [name ++ dirTail (isDirEff T E name name dfs)] := by
   by_cases hlone : loneQuote o te m = true
   · -- the opening quote is not recognised: as if nothing had been opened
     have hm : (m == Mode.closedInside) = false := by simpa [hlone] using hL
-    have hs : seenStyle o te m = ([], [], true) := by
+    have hs : seenStyle wq o te m = ([], [], true) := by
       unfold seenStyle; split <;> simp_all
     have hlt : lineTail o m = [] := by simp [lineTail, hm]
     rw [hs] at hg ⊢
     rw [hlt, List.append_nil]
-    exact core_bare ok E name hname dfs hA hB hg
+    exact core_bare ok E se name hname dfs hA hB hg
   · have hlone' : loneQuote o te m = false := by simpa using hlone
     simp only [openings, List.mem_cons, List.mem_nil_iff, or_false] at ho
     have single : ∀ (q : Char) (hq : q = sq ∨ q = dq) (st : Str), (st = [q] ∨ st = ['r', q]) → o = st →
         stripStringPrefix st = [q] →
-        readBack T E (regular T E name (seenStyle o te m).1 (seenStyle o te m).2.1 dfs (seenStyle o te m).2.2 ++ lineTail o m) =
+        readBack T E (regular T E name (seenStyle wq o te m).1 (seenStyle wq o te m).2.1 dfs (seenStyle wq o te m).2.2 ++ lineTail o m) =
           .args [name ++ dirTail (isDirEff T E name name dfs)] := by
       intro q hq st hst ho hstrip
       subst ho
       have hne : o.isEmpty = false := by rcases hst with h | h <;> subst h <;> rfl
-      have hs : seenStyle o te m = (o, [q], !(m == Mode.closedInside)) := by
+      have hs : seenStyle wq o te m = (o, [q], !(m == Mode.closedInside)) := by
         simp [seenStyle, hne, hlone', hstrip]
       have hlt : lineTail o m = (if (!(m == Mode.closedInside)) = true then [] else [q]) := by
         cases hm : m == Mode.closedInside <;> simp [lineTail, hm, hstrip]
       rw [hs] at hg ⊢
       rw [hlt]
-      exact core_q1 ok E name hq o hst dfs _ hA hB hg
+      exact core_q1 ok E se name hq o hst dfs _ hA hB hg
     have triple : ∀ (q : Char) (hq : q = sq ∨ q = dq), o = [q, q, q] →
-        readBack T E (regular T E name (seenStyle o te m).1 (seenStyle o te m).2.1 dfs (seenStyle o te m).2.2 ++ lineTail o m) =
+        readBack T E (regular T E name (seenStyle wq o te m).1 (seenStyle wq o te m).2.1 dfs (seenStyle wq o te m).2.2 ++ lineTail o m) =
           .args [name ++ dirTail (isDirEff T E name name dfs)] := by
       intro q hq ho
       subst ho
       have hstrip : stripStringPrefix [q, q, q] = [q, q, q] := by rcases hq with h | h <;> subst h <;> decide
-      have hm : (m == Mode.closedInside) = false := by simpa [hlone', hstrip] using hT3
-      have hs : seenStyle [q, q, q] te m = ([q, q, q], [q, q, q], true) := by
+      have hs : seenStyle wq [q, q, q] te m = ([q, q, q], [q, q, q], !(m == Mode.closedInside && wq)) := by
         simp [seenStyle, hlone', hstrip]
-      have hlt : lineTail [q, q, q] m = [] := by simp [lineTail, hm]
-      have hqn : q ∉ name := by
-        simp only [tripleScope, hstrip] at hscope
-        intro hmem
-        rw [List.contains_iff_mem.mpr hmem] at hscope
-        exact absurd hscope (by decide)
+      -- with the one-character test the cursor is not inside (guard); with the whole-quote test the closing
+      -- quote is left to the line
+      have hlt : lineTail [q, q, q] m = (if (!(m == Mode.closedInside && wq)) = true then [] else [q, q, q]) := by
+        cases hm : m == Mode.closedInside with
+        | false => simp [lineTail, hm]
+        | true =>
+          cases hw : wq with
+          | true => simp [lineTail, hm, hstrip]
+          | false => simp [hm, hw, hlone', hstrip] at hT3
       rw [hs] at hg ⊢
-      rw [hlt, List.append_nil]
-      exact core_q3 ok E name hq dfs hqn hA hB hg
+      rw [hlt]
+      exact core_q3_full ok E se name hq dfs _ hA hB hg
     rcases ho with h | h | h | h | h | h | h
     · subst h
-      have hs : seenStyle [] te m = ([], [], true) := by simp [seenStyle]
+      have hs : seenStyle wq [] te m = ([], [], true) := by simp [seenStyle]
       have hlt : lineTail [] m = [] := by cases hm : m == Mode.closedInside <;> simp [lineTail, hm, stripStringPrefix]
       rw [hs] at hg ⊢
       rw [hlt, List.append_nil]
-      exact core_bare ok E name hname dfs hA hB hg
+      exact core_bare ok E se name hname dfs hA hB hg
     · exact single sq (Or.inl rfl) [sq] (Or.inl rfl) h (by decide)
     · exact single dq (Or.inr rfl) [dq] (Or.inl rfl) h (by decide)
     · exact single sq (Or.inl rfl) ['r', sq] (Or.inr rfl) h (by decide)
@@ -144,31 +139,40 @@ theorem regular_ok {T : Tables} (ok : TablesOk T) (E : Env) (name o : Str) (te :
 
 /-- **C18 (round trip, partial).**  For EVERY non-empty name, each of the seven opening styles, every
 cursor position relative to the typed quotes, files and directories alike: if the name is outside the
-classes of `classify` (each of which is a reproduced defect with its own counterexample below) — and,
-for the triple-quote styles, does not contain that quote character — then EVERY text the completer
-offers for it, followed by what stays in the line, is read back by xonsh as exactly one argument:
-the name (with the separator the completer appends to a directory). -/
-theorem C18_roundtrip_partial (T : Tables) (ok : TablesOk T) (E : Env) (name o : Str) (te : Bool) (m : Mode)
-    (dfs : Bool) (hname : name ≠ []) (ho : o ∈ openings)
-    (hcls : classify T E name o te m dfs = []) (hscope : tripleScope name o = true) :
-    ∀ t ∈ completions T E name (seenStyle o te m).1 (seenStyle o te m).2.1 dfs (seenStyle o te m).2.2,
+classes of `classify` (each of which is a reproduced defect with its own counterexample below) then EVERY
+text the completer offers for it, followed by what stays in the line, is read back by xonsh as exactly one argument:
+the name (with the separator the completer appends to a directory).
+`wq`, `se` select the model variant that matches the implementation (probed by the harness on every run):
+`wq` = the closing-quote test compares the whole quote (repaired in /repo 6047536), `se` = the escape table
+also escapes the six remaining line boundaries (repaired in 00e7ff2).  For `se = true` the PROOF covers the
+names without those six characters (`hscope`; the reader model has no `\xHH` / `\uHHHH` escapes): names with
+them are then no class of defects in a non-raw literal — they are tied by execution only. -/
+theorem C18_roundtrip_partial (T : Tables) (ok : TablesOk T) (E : Env) (wq se : Bool) (name o : Str) (te : Bool)
+    (m : Mode) (dfs : Bool) (hname : name ≠ []) (ho : o ∈ openings)
+    (hcls : classify T E wq se name o te m dfs = [])
+    (hscope : se = true → name.any (fun c => unescapedBreaks.contains c) = false) :
+    ∀ t ∈ completions T E name (seenStyle wq o te m).1 (seenStyle wq o te m).2.1 dfs (seenStyle wq o te m).2.2,
       readBack T E (t ++ lineTail o m) = .args [name ++ dirTail (isDirEff T E name name dfs)] := by
   simp only [classify, List.append_eq_nil_iff, when_nil] at hcls
-  obtain ⟨⟨⟨⟨⟨hA, hB⟩, hmid⟩, hT3⟩, hL⟩, hTi⟩ := hcls
+  obtain ⟨⟨⟨⟨⟨hA, hB0⟩, hmid⟩, hT3⟩, hL⟩, hTi⟩ := hcls
   have hA' : normName name = name := by simpa using hA
-  rw [hA'] at hB
+  rw [hA'] at hB0
+  have hB : name.any (fun c => unescapedBreaks.contains c) = false := by
+    cases hse : se with
+    | true => exact hscope hse
+    | false => simpa [hse] using hB0
   intro t ht
   unfold completions at ht
-  by_cases hts : tildeSpecial name (seenStyle o te m).1 = true
+  by_cases hts : tildeSpecial name (seenStyle wq o te m).1 = true
   · simp only [hts, if_true, List.mem_append, List.mem_singleton] at ht
     rcases ht with ht | ht
     · -- the regular candidate survived the special case
-      by_cases hk : tildeKeeps (regular T E name (seenStyle o te m).1 (seenStyle o te m).2.1 dfs (seenStyle o te m).2.2) = true
+      by_cases hk : tildeKeeps (regular T E name (seenStyle wq o te m).1 (seenStyle wq o te m).2.1 dfs (seenStyle wq o te m).2.2) = true
       · simp only [hk, if_true, List.mem_singleton] at ht
         subst ht
-        have hg : styleClasses T E name (seenStyle o te m).1 (seenStyle o te m).2.1 dfs = [] := by
+        have hg : styleClasses T E se name (seenStyle wq o te m).1 (seenStyle wq o te m).2.1 dfs = [] := by
           simpa [hk] using hmid
-        exact regular_ok ok E name o te m dfs hname ho hscope hA' hB hg hT3 hL
+        exact regular_ok ok E wq se name o te m dfs hname ho hA' hB hg hT3 hL
       · simp [hk] at ht
     · -- the r'~' entry
       subst ht
@@ -189,21 +193,21 @@ theorem C18_roundtrip_partial (T : Tables) (ok : TablesOk T) (E : Env) (name o :
             | false => simp [hm, hlone', hts, hoe] at hTi
       rw [hlt, List.append_nil, hn, isDirEff_tilde]
       exact tilde_entry ok E dfs
-  · have hts' : tildeSpecial name (seenStyle o te m).1 = false := by simpa using hts
+  · have hts' : tildeSpecial name (seenStyle wq o te m).1 = false := by simpa using hts
     simp only [hts', Bool.false_eq_true, if_false, List.mem_singleton] at ht
     subst ht
-    have hg : styleClasses T E name (seenStyle o te m).1 (seenStyle o te m).2.1 dfs = [] := by
+    have hg : styleClasses T E se name (seenStyle wq o te m).1 (seenStyle wq o te m).2.1 dfs = [] := by
       simpa [hts'] using hmid
-    exact regular_ok ok E name o te m dfs hname ho hscope hA' hB hg hT3 hL
+    exact regular_ok ok E wq se name o te m dfs hname ho hA' hB hg hT3 hL
 
 /-- the same for the tables translated from /repo's current source -/
-theorem C18_roundtrip_gen (E : Env) (name o : Str) (te : Bool) (m : Mode) (dfs : Bool) (hname : name ≠ [])
-    (ho : o ∈ openings) (hcls : classify Gen.Quote.tables E name o te m dfs = [])
-    (hscope : tripleScope name o = true) :
-    ∀ t ∈ completions Gen.Quote.tables E name (seenStyle o te m).1 (seenStyle o te m).2.1 dfs (seenStyle o te m).2.2,
+theorem C18_roundtrip_gen (E : Env) (wq se : Bool) (name o : Str) (te : Bool) (m : Mode) (dfs : Bool) (hname : name ≠ [])
+    (ho : o ∈ openings) (hcls : classify Gen.Quote.tables E wq se name o te m dfs = [])
+    (hscope : se = true → name.any (fun c => unescapedBreaks.contains c) = false) :
+    ∀ t ∈ completions Gen.Quote.tables E name (seenStyle wq o te m).1 (seenStyle wq o te m).2.1 dfs (seenStyle wq o te m).2.2,
       readBack Gen.Quote.tables E (t ++ lineTail o m) =
         .args [name ++ dirTail (isDirEff Gen.Quote.tables E name name dfs)] :=
-  C18_roundtrip_partial Gen.Quote.tables C18_tables_ok E name o te m dfs hname ho hcls hscope
+  C18_roundtrip_partial Gen.Quote.tables C18_tables_ok E wq se name o te m dfs hname ho hcls hscope
 
 /-- **needs-quotes is sound**: a name that `name_needs_quotes` lets through unquoted, outside the
 bare-word classes, reads back as itself when inserted bare (followed by the completer's space). -/
@@ -253,14 +257,17 @@ def E0 : Env where
 abbrev G := Gen.Quote.tables
 
 /-- what the model completer offers, and how each text (plus what stays in the line) is read -/
-def offer (name o : Str) (te : Bool) (m : Mode) (dfs : Bool) : List (Str × Read) :=
-  (completions G E0 name (seenStyle o te m).1 (seenStyle o te m).2.1 dfs (seenStyle o te m).2.2).map
+def offerV (wq : Bool) (name o : Str) (te : Bool) (m : Mode) (dfs : Bool) : List (Str × Read) :=
+  (completions G E0 name (seenStyle wq o te m).1 (seenStyle wq o te m).2.1 dfs (seenStyle wq o te m).2.2).map
     fun t => (t, readBack G E0 (t ++ lineTail o m))
+
+/-- … by the UNCHANGED code (the one-character closing-quote test) -/
+abbrev offer := offerV false
 
 /-- a name ending in a backslash: the raw string doubles it -/
 theorem C18_cex_trailing_backslash :
     offer (s "e\\") [] true .atEnd false = [(s "r'e\\\\' ", .args [s "e\\\\"])] ∧
-    classify G E0 (s "e\\") [] true .atEnd false = [.trailingBackslash] := by decide +kernel
+    classify G E0 false false (s "e\\") [] true .atEnd false = [.trailingBackslash] := by decide +kernel
 
 /-- … and a name ending in TWO backslashes gets a third: the literal no longer ends -/
 theorem C18_cex_trailing_backslash_pair :
@@ -270,93 +277,110 @@ theorem C18_cex_trailing_backslash_pair :
 theorem C18_cex_bang :
     offer (s "a!b") [] true .atEnd false = [(s "a!b ", .args [s "a", s "b"])] ∧
     offer (s "!x") [] true .atEnd false = [(s "!x ", .args [s "x"])] ∧
-    classify G E0 (s "a!b") [] true .atEnd false = [.bangUnquoted] := by decide +kernel
+    classify G E0 false false (s "a!b") [] true .atEnd false = [.bangUnquoted] := by decide +kernel
 
 /-- both quote kinds and `$`: a raw string in which the quote is "escaped" keeps the backslash -/
 theorem C18_cex_raw_quote_conflict :
     offer (s "a'b\"$c") [] true .atEnd false = [(s "r'a\\'b\"$c' ", .args [s "a\\'b\"$c"])] ∧
-    classify G E0 (s "a'b\"$c") [] true .atEnd false = [.rawQuoteConflict] := by decide +kernel
+    classify G E0 false false (s "a'b\"$c") [] true .atEnd false = [.rawQuoteConflict] := by decide +kernel
 
 /-- a control character forces a NON-raw literal, in which `$VAR` is expanded -/
 theorem C18_cex_dollar_expansion :
     offer (s "n\n$XVVAR") [] true .atEnd false = [(s "'n\\n$XVVAR' ", .args [s "n\nVALUE"])] ∧
-    classify G E0 (s "n\n$XVVAR") [] true .atEnd false = [.dollarExpansion] := by decide +kernel
+    classify G E0 false false (s "n\n$XVVAR") [] true .atEnd false = [.dollarExpansion] := by decide +kernel
 
 /-- `~user`, and `~` after `=` or `:`, are expanded in bare words and non-raw literals -/
 theorem C18_cex_tilde_expansion :
     offer (s "~root") [] true .atEnd false = [(s "~root ", .args [s "/root"])] ∧
     offer (s "x=~") [] true .atEnd false = [(s "x=~ ", .args [s "x=/h"])] ∧
     offer (s "a b=~") [] true .atEnd false = [(s "'a b=~' ", .args [s "a b=/h"])] ∧
-    classify G E0 (s "~root") [] true .atEnd false = [.tildeExpansion] := by decide +kernel
+    classify G E0 false false (s "~root") [] true .atEnd false = [.tildeExpansion] := by decide +kernel
 
 /-- `_normpath` strips trailing spaces: the completion names another file -/
 theorem C18_cex_trailing_space :
     offer (s "tr ") [] true .atEnd false = [(s "tr ", .args [s "tr"])] ∧
-    classify G E0 (s "tr ") [] true .atEnd false = [.trailingSpace] := by decide +kernel
+    classify G E0 false false (s "tr ") [] true .atEnd false = [.trailingSpace] := by decide +kernel
 
-/-- a line boundary of `str.splitlines` that `_CONTROL_CHAR_ESCAPE` does not escape stays verbatim in the
-literal (the Execer then cuts the line there; the model's reader declines such text) -/
+/-- PINNED SNAPSHOT's behaviour (variant `se = false`, /repo before 00e7ff2; known finding `line-separator`, now
+"fixed: 00e7ff2"): a line boundary of `str.splitlines` that `_CONTROL_CHAR_ESCAPE` does not escape stays verbatim in
+the literal (the Execer then cuts the line there; the model's reader declines such text).
+With the repaired table (`se = true`) the class is gone for a non-raw literal; what REMAINS is the opened RAW
+quote, where the new escape is written into a raw string like the old five (finding `raw-control-char`). -/
 theorem C18_cex_line_separator :
     (offer [ 'a', Char.ofNat 0x1c, 'b' ] [] true .atEnd false).map (·.1) = [[sq, 'a', Char.ofNat 0x1c, 'b', sq, ' ']] ∧
-    classify G E0 [ 'a', Char.ofNat 0x1c, 'b' ] [] true .atEnd false = [.lineSeparator] := by decide +kernel
+    classify G E0 false false [ 'a', Char.ofNat 0x1c, 'b' ] [] true .atEnd false = [.lineSeparator] ∧
+    classify G E0 false true [ 'a', Char.ofNat 0x1c, 'b' ] [] true .atEnd false = [] ∧
+    classify G E0 false true [ 'a', Char.ofNat 0x1c, 'b' ] (s "r'") true .atEnd false = [.rawControlChar] := by
+  decide +kernel
 
-/-- the user opened a RAW quote and the name has a control character: `\n` is written into a raw string -/
+/-- the user opened a RAW quote and the name has a character that `_CONTROL_CHAR_ESCAPE` escapes: `\n` (since
+00e7ff2 also `\x1c` … `\u2029`, see `C18_cex_line_separator`) is written into a raw string -/
 theorem C18_cex_raw_control_char :
     offer (s "n\nx") (s "r'") true .atEnd false = [(s "r'n\\nx' ", .args [s "n\\nx"])] ∧
-    classify G E0 (s "n\nx") (s "r'") true .atEnd false = [.rawControlChar] := by decide +kernel
+    classify G E0 false false (s "n\nx") (s "r'") true .atEnd false = [.rawControlChar] := by decide +kernel
 
 /-- a triple quote was opened and the name ends in that quote character: four quotes in a row -/
 theorem C18_cex_triple_quote_end :
     (offer (s "x'") (s "'''") false .atEnd false).map (·.1) = [s "'''x'''' "] ∧
     (offer (s "x'") (s "'''") false .atEnd false).map (·.2) ≠ [.args [s "x'"]] ∧
-    classify G E0 (s "x'") (s "'''") false .atEnd false = [.tripleQuoteEnd] := by decide +kernel
+    classify G E0 false false (s "x'") (s "'''") false .atEnd false = [.tripleQuoteEnd] := by decide +kernel
 
-/-- the cursor is inside a CLOSED triple quote: the closing quote is inserted a second time -/
+/-- PINNED SNAPSHOT's behaviour (variant `wq = false`, /repo before 6047536; known finding
+`triple-quote-cursor-inside`, now "fixed: 6047536"): the cursor is inside a CLOSED triple quote and the closing
+quote is inserted a second time; then the repaired variant `wq = true`. -/
 theorem C18_cex_triple_cursor_inside :
     offer (s "ab") (s "'''") false .closedInside false = [(s "'''ab''' ", .unmodelled)] ∧
-    classify G E0 (s "ab") (s "'''") false .closedInside false = [.tripleCursorInside] := by decide +kernel
+    classify G E0 false false (s "ab") (s "'''") false .closedInside false = [.tripleCursorInside] ∧
+    -- the repaired variant (the whole closing quote is compared): the class is gone and the text reads back
+    classify G E0 true false (s "ab") (s "'''") false .closedInside false = [] ∧
+    offerV true (s "ab") (s "'''") false .closedInside false = [(s "'''ab", .args [s "ab"])] := by decide +kernel
 
 /-- a lone opening quote is not recognised: the candidate (here one containing that quote) replaces it
 and the closing quote the user had typed stays behind -/
 theorem C18_cex_lone_quote_inside :
     offer (s "x'y") (s "'") true .closedInside false = [(s "\"x'y\" ", .unmodelled)] ∧
-    classify G E0 (s "x'y") (s "'") true .closedInside false = [.loneQuoteInside] := by decide +kernel
+    classify G E0 false false (s "x'y") (s "'") true .closedInside false = [.loneQuoteInside] := by decide +kernel
 
 /-- the r'~' entry of the `~` special case brings its own closing quote even when one is already there -/
 theorem C18_cex_tilde_cursor_inside :
     offer (s "~") (s "'") false .closedInside false = [(s "r'~'", .unmodelled)] ∧
-    classify G E0 (s "~") (s "'") false .closedInside false = [.tildeCursorInside] := by decide +kernel
+    classify G E0 false false (s "~") (s "'") false .closedInside false = [.tildeCursorInside] := by decide +kernel
 
 /-- outside the reader model (observed on the real code by the harness): a `\w` character that cannot
 start an identifier, and a word that turns the line into a Python statement -/
 theorem C18_cex_unmodelled_bare :
     offer [Char.ofNat 0xb2] [] true .atEnd false = [([Char.ofNat 0xb2, ' '], .unmodelled)] ∧
-    classify G E0 [Char.ofNat 0xb2] [] true .atEnd false = [.oddToken] ∧
+    classify G E0 false false [Char.ofNat 0xb2] [] true .atEnd false = [.oddToken] ∧
     offer (s "=x") [] true .atEnd false = [(s "=x ", .unmodelled)] ∧
-    classify G E0 (s "=x") [] true .atEnd false = [.pythonStatement] := by decide +kernel
+    classify G E0 false false (s "=x") [] true .atEnd false = [.pythonStatement] := by decide +kernel
 
 /-! ## the guard is satisfiable, and the theorem says something about ordinary nasty names -/
 
-example : classify G E0 (s "sp ace") [] true .atEnd false = [] ∧
+example : classify G E0 false false (s "sp ace") [] true .atEnd false = [] ∧
     offer (s "sp ace") [] true .atEnd false = [(s "'sp ace' ", .args [s "sp ace"])] := by decide +kernel
-example : classify G E0 (s "do$l\\ar") [] true .atEnd false = [] ∧
+example : classify G E0 false false (s "do$l\\ar") [] true .atEnd false = [] ∧
     offer (s "do$l\\ar") [] true .atEnd false = [(s "r'do$l\\ar' ", .args [s "do$l\\ar"])] := by decide +kernel
-example : classify G E0 (s "it's") [] true .atEnd true = [] ∧
+example : classify G E0 false false (s "it's") [] true .atEnd true = [] ∧
     offer (s "it's") [] true .atEnd true = [(s "\"it's/\"", .args [s "it's/"])] := by decide +kernel
-example : classify G E0 (s "a\tb\\c\"") (s "\"") false .closedInside false = [] ∧
+example : classify G E0 false false (s "a\tb\\c\"") (s "\"") false .closedInside false = [] ∧
     offer (s "a\tb\\c\"") (s "\"") false .closedInside false = [(s "\"a\\tb\\\\c\\\"", .args [s "a\tb\\c\""])] := by
   decide +kernel
-example : classify G E0 (s "~") [] true .atEnd false = [] ∧
+example : classify G E0 false false (s "~") [] true .atEnd false = [] ∧
     offer (s "~") [] true .atEnd false = [(s "r'~'", .args [s "~"])] := by decide +kernel
-example : classify G E0 (s "and") [] true .atEnd false = [] ∧
+example : classify G E0 false false (s "and") [] true .atEnd false = [] ∧
     offer (s "and") [] true .atEnd false = [(s "'and' ", .args [s "and"])] := by decide +kernel
-example : classify G E0 (s "#x") (s "'''") false .atEnd false = [] ∧ tripleScope (s "#x") (s "'''") = true ∧
+example : classify G E0 false false (s "#x") (s "'''") false .atEnd false = [] ∧
     offer (s "#x") (s "'''") false .atEnd false = [(s "'''#x''' ", .args [s "#x"])] := by decide +kernel
+/-- a triple-quoted candidate with quotes of its own kind inside: one, two, and three in a row -/
+example : classify G E0 false false (s "a'b''c'''d") (s "'''") false .atEnd false = [] ∧
+    offer (s "a'b''c'''d") (s "'''") false .atEnd false =
+      [(s "'''a'b''c\\'\\'\\'d''' ", .args [s "a'b''c'''d"])] := by decide +kernel
 /-- the hypotheses of `C18_roundtrip_gen` hold of a concrete instance, and its conclusion is the executed fact -/
-example : ∀ t ∈ completions G E0 (s "a;b|c") (seenStyle (s "r\"") false .atEnd).1 (seenStyle (s "r\"") false .atEnd).2.1 false
-      (seenStyle (s "r\"") false .atEnd).2.2,
+example : ∀ t ∈ completions G E0 (s "a;b|c") (seenStyle false (s "r\"") false .atEnd).1 (seenStyle false (s "r\"") false .atEnd).2.1 false
+      (seenStyle false (s "r\"") false .atEnd).2.2,
     readBack G E0 (t ++ lineTail (s "r\"") .atEnd) = .args [s "a;b|c" ++ dirTail (isDirEff G E0 (s "a;b|c") (s "a;b|c") false)] :=
-  C18_roundtrip_gen E0 (s "a;b|c") (s "r\"") false .atEnd false (by decide) (by decide) (by decide +kernel) (by decide)
+  C18_roundtrip_gen E0 false false (s "a;b|c") (s "r\"") false .atEnd false (by decide) (by decide) (by decide +kernel)
+    (by decide)
 
 /-! ## the analyser clause: what `reconstructs` buys (the analyser itself is not modelled) -/
 
